@@ -26,7 +26,8 @@ EXTENDS ScannerApi, Json, IOUtils
   NIters       maximal number of iterators
   BackOnly     TRUE: set_offset only to offsets already scanned (C09)
   SecondInputs indices of inputs a later find_iter may use besides the first input
-  SampleMod, SampleSeed   keep (cfg, input) pairs with (31*cfg + 17*input + seed) % mod = 0 *)
+  SampleMod, SampleSeed   keep (cfg, input) pairs with (31*cfg + 17*input + seed) % mod = 0
+  AllPos       TRUE: every iterator call is followed by position(o) for all scanned offsets *)
 VARIABLES hist, done
 
 vars == <<scanners, iters, cache, hist, done>>
@@ -57,7 +58,16 @@ StepStart ==
          /\ hist' = Append(hist, [op |-> "newiter", sc |-> 1, w |-> W(k), off |-> o])
          /\ done' = FALSE
 
-Log(e) == hist' = Append(hist, e)
+\* With AllPos every call record on an iterator also carries, for every boundary already scanned
+\* AFTER the call, the admissible positions (C09: position(o) for any scanned offset); the
+\* harness queries position(o) for each of them.
+ScannedPos(h) ==
+  LET it == iters'[h]
+      k  == it.inp IN
+  IF AllPos /\ it.posok
+    THEN SetToSeq({ <<o, SetToSeq(PosAdm(k, o))>> : o \in { o \in Boundaries(k) : IdxOf(k, o) <= it.hw } })
+    ELSE <<>>
+Log(e) == hist' = Append(hist, IF "it" \in DOMAIN e THEN e @@ [allpos |-> ScannedPos(e.it)] ELSE e)
 \* a call record always carries the iterator's mode after the call (current_mode(), C06)
 ModeAfter(h) == iters'[h].mode
 
